@@ -44,6 +44,8 @@ class map_impl {
 
   map_impl(const self_type &rhs)
       : m_default_value(rhs.m_default_value), m_comm(rhs.m_comm), pthis(this) {
+    // Operations still in flight to rhs belong to the contents being copied
+    m_comm.barrier();
     m_local_map.insert(std::begin(rhs.m_local_map), std::end(rhs.m_local_map));
     pthis.check(m_comm);
   }
